@@ -140,6 +140,24 @@ InvOneRespPerMsg == (Tx /\ last.r.ok /\ last.call.k = "execute") => Len(last.r.r
 DbgEffective == Tx => (PostIsEffective(last.pre, last.r)
                         \/ (PrintT(<<"BAD", last.call, last.sc, "post", last.r.post, "eff", EffectiveState(last.pre, last.r.log, Len(last.r.log) + 1)>>) /\ FALSE))
 
+(* C09 in composition: over a completed transaction the supply of every denomination changes exactly by what the
+   effective (not rolled back) mint and burn effects of its log say - transfers, attached funds, delegations,
+   payouts never create or destroy coins *)
+RECURSIVE SumBal(_, _, _)
+SumBal(bank, accts, d) == IF accts = {} THEN 0
+                          ELSE LET a == CHOOSE x \in accts : TRUE IN bank[a][d] + SumBal(bank, accts \ {a}, d)
+SupplyIn(st, d) == SumBal(st.bank, DOMAIN st.bank, d)
+RECURSIVE NetMint(_, _, _)
+NetMint(log, i, d) ==
+    IF i > Len(log) THEN 0
+    ELSE LET e == log[i]
+             RECURSIVE Effs(_)
+             Effs(es) == IF es = <<>> THEN 0
+                         ELSE (IF Head(es).e = "mint" THEN Tot(Head(es).coins, d)
+                               ELSE IF Head(es).e = "burn" THEN 0 - Tot(Head(es).coins, d) ELSE 0) + Effs(Tail(es))
+         IN (IF e.dead THEN 0 ELSE Effs(e.eff)) + NetMint(log, i + 1, d)
+InvConserve == Tx => \A d \in Denoms : SupplyIn(last.r.post, d) = SupplyIn(last.pre, d) + NetMint(last.r.log, 1, d)
+
 (* C08: an invocation changes only the invoked contract's own key space *)
 InvPrivate ==
     Tx => \A j \in 1..Len(last.r.log) :
